@@ -258,6 +258,8 @@ def run(ctx):
     for i in range(n):
         tool = ('header', 'whole')[i % 2]
         P = PARAMS[4] if i % 40 == 39 else PARAMS[(i // 2) % 4]
+        if i % 4 == 3:
+            P = dict(P, v=True)                # -v on a quarter of the runs
         kind = KINDS[(i // 2) % len(KINDS)]
         pos = ('first', 'middle', 'last')[(i // 7) % 3]
         case = mk_case(rng, tool, P, kind, pos)
